@@ -121,6 +121,7 @@ func selfBench(boxID string, limit int, prof string) {
 //	Z release the oldest delayed message
 //	L<n> lag   A<n> apply the held page   N<n> unlag   F<n><v> proposeConf at n, variant v (index into ccNames)
 //	G<n> plag (persist lag)   B<n> persist the held Ready   M<n> unplag
+//	O<n><s><v> proposeBatch at n: one MsgProp with several entries, shape s (index into bsNames), conf change v
 //	X<k> / D<k> with a digit: drop / deliver the k-th pooled message (0 = oldest)
 //	W print the state   J print the path executed so far as JSON (for a replay file)
 //
@@ -142,7 +143,7 @@ func scenario(cfgName string, toks []string) {
 	if joiners > 1 {
 		cfg.Joiners = joiners
 	}
-	bud := Budget{MaxTerm: 9, Proposals: 9, Drops: 99, Dups: 9, Crashes: 9, Heartbeats: 9, Compacts: 9, Expires: 9, Delays: 9, ConfChanges: 9, Lags: 9, Applies: 99, Plags: 9, Persists: 99}
+	bud := Budget{MaxTerm: 9, Proposals: 9, Drops: 99, Dups: 9, Crashes: 9, Heartbeats: 9, Compacts: 9, Expires: 9, Delays: 9, ConfChanges: 9, Lags: 9, Applies: 99, Plags: 9, Persists: 99, Batches: 9}
 	var done []Event
 	c := newCluster(newSim(false), &cfg, &bud, true)
 	step := func(e Event) bool {
@@ -224,6 +225,12 @@ func scenario(cfgName string, toks []string) {
 			step(Event{K: evUnplag, N: n})
 		case 'F':
 			step(Event{K: evConf, N: n, A: uint16(t[2] - '0')})
+		case 'O':
+			v := uint16(0)
+			if len(t) > 3 {
+				v = uint16(t[3] - '0')
+			}
+			step(Event{K: evBatch, N: n, A: uint16(t[2]-'0')<<8 | v})
 		case 'W':
 			fmt.Println(c.summary())
 		case 'J':
